@@ -299,12 +299,17 @@ func ruleOpSiblings(c *Ctx, r *Report, prefix string) {
 		r.Undecided(rule, "paths", c.Pos(ro.Pos()), "path budget exceeded while extracting the operation trees")
 		return
 	}
-	if len(decL) != 1 {
+	if dl == ro {
+		decL = nil // decodeLiteral was inlined into readOp: its codec call is already on the literal path
+	} else if len(decL) != 1 {
 		r.Undecided(rule, "decodeLiteral", c.Pos(dl.Pos()), "decoder.decodeLiteral is expected to have exactly one successful path, found "+itoa(len(decL)))
 		return
 	}
 	// splice decodeLiteral into readOp's literal path
 	for i := range dec {
+		if decL == nil {
+			break
+		}
 		var cs []opCodec
 		for _, cd := range dec[i].codecs {
 			if cd.field == "@decodeLiteral" {
